@@ -227,6 +227,19 @@ pub fn install_quiet_panic_hook() {
         let prev = panic::take_hook();
         panic::set_hook(Box::new(move |info| {
             let quiet = QUIET.try_with(|q| q.get() > 0).unwrap_or(false);
+            // Panics raised at a location inside emit-rs/emit are always noted on stderr (rate
+            // limited), even when quiet: if the process then dies from a panic while unwinding
+            // (abort), `bin/check` can attribute the death to that location instead of calling the
+            // lane inconclusive.
+            if let Some(loc) = info.location() {
+                let file = loc.file();
+                if file.contains("/repo/") || file.starts_with("repo/") {
+                    static NOTED: AtomicU64 = AtomicU64::new(0);
+                    if NOTED.fetch_add(1, Ordering::Relaxed) < 40 {
+                        eprintln!("@@REPO-PANIC {}:{}", file, loc.line());
+                    }
+                }
+            }
             if !quiet {
                 prev(info)
             }
